@@ -49,8 +49,8 @@ val visit_stmts_with :
   (mode -> node -> st -> node * st) -> node list -> st -> node list * st
 
 val visit :
-  env -> (node -> st -> node * st) -> (node -> st -> node * st) -> (node ->
-  st -> st) -> mode -> node -> st -> node * st
+  env -> (node -> st -> node * st) -> (node -> st -> node * st) -> mode ->
+  node -> st -> node * st
 
 val pragma_in_text : nat -> str -> str option
 
